@@ -15,8 +15,9 @@ EXPLANATION = (
     "on the sequence check, and nobody outside decode_rx_frame/__init__ writes the buffers "
     "(who-may-write scan of every module, nested classes included).")
 ASSUMPTIONS = [
-    "callbacks (on_*) of subclasses are checked for writes to the reassembly state only; other "
-    "exceptions raised inside user-supplied callbacks are outside the property",
+    "callbacks (on_*) of the package's own subclasses and snoop's telegram handler are checked "
+    "for asserts, unguarded Optional state, unguarded payload indexes and enum conversions; "
+    "other exceptions raised inside user-supplied callbacks are outside the property",
     "the guards recognised are comparisons of len(data) with integer constants and truthiness of "
     "data",
 ]
@@ -33,6 +34,7 @@ def check(prog: Program, run: Run) -> None:
     fr = isotp.Frame(prog)
     isotp.c13_no_raise(prog, fr, run)
     isotp.c13_callbacks(prog, run)
+    isotp.c13_consumers(prog, run)
     run_as(run, "C12.R3", "C13.R1", lambda r: isotp.c12_log_regex(prog, r))
     isotp.c13_typestate(prog, fr, run)
     isotp.c13_seq_error(fr, run)
